@@ -10,7 +10,7 @@ LEVEL = 'model_checking'
 ENGINE = 'E1+E2'
 TECHNIQUE = 'bounded exhaustive enumeration of all ordered BC-point lists (1..3 points over a 3x4 alphabet) against a hand-written clamped linear interpolation, plus all build histories up to depth 3/4 over shared inputs with a snapshot invariant on every transition'
 RULE = ('law cells = every ordered list of 1..3 points with distinct Mach over BC {.2,.25,.3} x Mach {.5,1,2,3} (768 lists) x input form '
-        '(Mach, or velocity in FPS/MPS/KMH) x table x with/without weight+diameter; history cells = every sequence of <= 3 (thorough 4) '
+        '(Mach, or velocity in FPS/MPS/KMH) x table x with/without weight+diameter; dense cells = 2-4 BC points inside ONE table interval (4 intervals per table) with/without points below and above, 3 orders; history cells = every sequence of <= 3 (thorough 4) '
         'operations over {plain model from dicts, multi from dicts, multi from the plain model\'s data points, multi from the last '
         'multi model\'s data points, repeat last multi build}; after every operation every input table, every live model and every '
         'BC point is compared with its snapshot; non-trivial = list with >= 2 points / history that shares data points between models')
@@ -174,7 +174,29 @@ def history(cell):
             'obs': [shared, len(ops)]}
 
 
-PARTS = {'law': law, 'history': history}
+def dense(cell):
+    """BC points denser than the table grid: several points inside one table interval, with and without points below / above it"""
+    tname, gap, fracs, below, above, order = cell
+    table = _table(tname)
+    machs = [p['Mach'] for p in table]
+    lo, hi = machs[gap], machs[gap + 1]
+    pts = []
+    if below:
+        pts.append([0.20, machs[max(0, gap - 3)] + 0.4 * (machs[max(0, gap - 3) + 1] - machs[max(0, gap - 3)])])
+    for k, f in enumerate(fracs):
+        pts.append([0.25 + 0.03 * k, lo + f * (hi - lo)])
+    if above:
+        pts.append([0.40, machs[min(len(machs) - 2, gap + 4)] + 0.5 * (machs[min(len(machs) - 2, gap + 4) + 1] - machs[min(len(machs) - 2, gap + 4)])])
+    if order == 'reversed':
+        pts = pts[::-1]
+    elif order == 'rotated':
+        pts = pts[1:] + pts[:1]
+    res = law([tname, pts, 'Mach', False])
+    res['nt'] = cell
+    return res
+
+
+PARTS = {'law': law, 'history': history, 'dense': dense}
 
 
 def point_lists():
@@ -223,4 +245,18 @@ def plan(tier):
                     continue
                 for wd in (False, True):
                     hist.append(['G7', pl, list(ops), wd])
-    return [('law', law_cells), ('history', hist)]
+    dn = []
+    for t in (['G7', 'G1'] if tier == 'quick' else TABLES):
+        n = len(_table_static(t))
+        for gap in (1, 20, n // 2, n - 3):
+            for fracs in ([0.3, 0.7], [0.2, 0.5, 0.8], [0.0, 0.5], [0.5, 1.0], [0.1, 0.2, 0.3, 0.9]):
+                for below, above in ((True, True), (False, True), (True, False), (False, False)):
+                    for order in ('sorted', 'reversed', 'rotated'):
+                        dn.append([t, gap, fracs, below, above, order])
+    return [('law', law_cells), ('history', hist), ('dense', dn)]
+
+
+def _table_static(name):
+    from mc import core
+    core.bind_repo()
+    return _table(name)
